@@ -1,8 +1,8 @@
 (* C06 -- every RPC call gets exactly one correct return, in order, with pipelining.
-   Statements only.  Proved here: the handler-level parts of one_return and question_ids and the
-   absence of the sender-lock leak; the history-level statements stay `_partial` (what is missing
-   is said at each theorem); delivery_order is covered by the correspondence run only. *)
-From CV Require Import Rpc.Rpc Rpc.RpcSpec Rpc.RpcProofs Rpc.RpcInv Rpc.RpcResp Rpc.RpcLocal Rpc.RpcHist Rpc.RpcQids Rpc.RpcRefuted.
+   Statements only.  Proved here at history level: one_return, question_ids (both halves: ids and
+   "each local call resolves exactly once"); the handler-level lemmas of the first round are kept
+   (`_partial`); delivery_order is covered by the correspondence run only. *)
+From CV Require Import Rpc.Rpc Rpc.RpcSpec Rpc.RpcProofs Rpc.RpcInv Rpc.RpcResp Rpc.RpcLocal Rpc.RpcHist Rpc.RpcQids Rpc.RpcCalls Rpc.RpcRefuted.
 Open Scope Z_scope.
 
 (* ================= history-level theorems (second round) =================
@@ -25,7 +25,7 @@ Print Assumptions C06_one_return.
 (* ... and the Return carries the target's outcome: when a local server returns from the call that
    runs for answer id, the step sends a results Return for id (normal return) or an exception Return
    for id (exception).  (A call rejected before it reaches a server gets an exception Return:
-   [C06_one_return_partial] / response_class of C08.) *)
+   [C06_exception_return_once] / response_class of C08.) *)
 Theorem C06_return_is_targets : forall k r s s0 o0 ab id a, app_return cfg_fixed k r s = Ok (s0, o0, ab) -> live s ->
   find_running k (s_ans s) = Some (id, a) ->
   match r with ARExc => In (OReturnExc id) o0 | _ => exists ds, In (OReturnRes id ds) o0 end.
@@ -48,13 +48,33 @@ Theorem C06_new_question_is_free : forall q s s1 id, new_question q s = Ok (s1, 
   s_ndeliv s1 = s_ndeliv s /\ s_shut s1 = s_shut s.
 Proof. exact new_question_q. Qed.
 Print Assumptions C06_new_question_is_free.
-(* question_ids, second half -- "each local call resolves exactly once" -- is NOT proved at history
-   level (it needs one more counting invariant over questions / direct local calls / calls held by
-   an embargo); it is covered by the correspondence run (results seen by local callers).
-   delivery_order (T2): stated below, not proved. *)
+(* question_ids, second half -- every local call resolves exactly once.  [is_res n] recognises the
+   resolution [LAppRes n _] of local call number n; [hold n] counts the places that still hold call
+   n: unfinished questions carrying it ([HQ]), running direct deliveries to a local server ([HL]),
+   calls blocked behind an embargo ([HE]).  For EVERY history (through shutdown and beyond):
+   a number that has been handed out has, together, exactly ONE resolution-or-holder -- so it is
+   never resolved twice, a resolved call is held nowhere (nothing can resolve it again) and an
+   unresolved call is held at exactly one place (it is not lost); a number not handed out has
+   neither; and after shutdown no question holds a call any more (every call made through the
+   connection has been resolved; what may remain are direct calls on local servers, resolved when
+   the server returns). *)
+Theorem C06_call_resolves_once : forall boot evs s out, work evs < 4294967295 -> run_o (init boot) evs [] = Ok (s, out) ->
+  forall n, 0 <= n ->
+    (n < s_ncall s -> (cnt (is_res n) out + hold n (aux_of s) = 1)%nat) /\
+    (s_ncall s <= n -> cnt (is_res n) out = 0%nat /\ hold n (aux_of s) = 0%nat) /\
+    (cnt (is_res n) out <= 1)%nat.
+Proof. exact call_resolves_once. Qed.
+Print Assumptions C06_call_resolves_once.
+Theorem C06_shut_calls_resolved : forall boot evs s out, work evs < 4294967295 -> run_o (init boot) evs [] = Ok (s, out) ->
+  s_shut s = true -> forall n, HQ n (s_qs s) = 0%nat.
+Proof. exact shut_calls_resolved. Qed.
+Print Assumptions C06_shut_calls_resolved.
+(* delivery_order (T2): stated below, not proved. *)
 
 (* ================= handler-level lemmas of the first round (kept) =================
-   one_return, FULL STATEMENT as first written (now superseded by C06_one_return):
+   (Complete lemmas about single handlers; the history-level statements they were the partial
+   results for are proved above.)
+   one_return as first written (proved since as C06_one_return):
      for every history evs (run_env cfg_fixed (init b) evs = Ok s) and every Bootstrap/Call id
      received at position i and not followed by a Finish for the id and a later reuse:
      the outbox holds at most one Return for the id after position i, it carries that id, exactly
@@ -64,13 +84,11 @@ Print Assumptions C06_new_question_is_free.
    id (none at all after shutdown), and the answer is left returnSent (not returnable again: every
    handler that returns an answer takes it from a Running / Queued / fresh state, see
    [ans_ok] in RpcInv) or destroyed.
-   MISSING: the same lemma for sendReturn is proved only as part of the invariant (send_return_ok),
-   not with the output count; and the induction that ties `returnSent` to the outbox over whole
-   histories (one incarnation of an answer id = the interval between its Call and its Finish). *)
-Theorem C06_one_return_partial : forall c id a s s1 o ab, send_exception c id a s = Ok (s1, o, ab) ->
+   (The same for sendReturn and the induction over whole histories: C06_one_return.) *)
+Theorem C06_exception_return_once : forall c id a s s1 o ab, send_exception c id a s = Ok (s1, o, ab) ->
   returns id o = (if s_shut s then 0 else 1)%nat /\ (forall b, b <> id -> returns b o = 0%nat) /\ returned_or_gone id s1.
 Proof. exact send_exception_one_return. Qed.
-Print Assumptions C06_one_return_partial.
+Print Assumptions C06_exception_return_once.
 
 (* every handler keeps the invariant from which one_return follows locally: an answer that has
    not returned is running on a server or queued behind another answer (never idle), so a
@@ -80,20 +98,19 @@ Theorem C06_answers_progress : forall s e W, sinv s W -> W + ev_work e < 4294967
 Proof. exact step_ok. Qed.
 Print Assumptions C06_answers_progress.
 
-(* question_ids, FULL STATEMENT (not proved at this strength):
+(* question_ids as first written (proved since as C06_question_ids + C06_call_resolves_once):
      in every reachable state a question id handed out by newQuestion is not in use, and between
      two uses of an id the outbox has a Finish for it; each local call resolves exactly once.
    PROVED PART: the only handler that frees a question id is handleReturn; when the question was
    not canceled the Finish for that id is among the messages of the same step and the connection
    is not aborted; when it was canceled the Finish(releaseResultCaps) was sent by the step that
    set the flag.
-   MISSING: the invariant "free ids have empty table slots" over histories, and the exactly-once
-   resolution of local calls (LAppRes), which only the correspondence run checks. *)
-Theorem C06_question_ids_partial : forall qid rpc k s q s1 o ab,
+   (Superseded by C06_question_ids / C06_new_question_is_free / C06_call_resolves_once above.) *)
+Theorem C06_return_sends_finish : forall qid rpc k s q s1 o ab,
   handle_return cfg_fixed qid rpc k s = Ok (s1, o, ab) -> tget qid (s_qs s) = Some q -> q_fin q = false ->
   In (OFinish qid false) o /\ ab = false.
 Proof. exact return_sends_finish. Qed.
-Print Assumptions C06_question_ids_partial.
+Print Assumptions C06_return_sends_finish.
 
 Theorem C06_cancel_sends_finish : forall qid q s s1 o, cancel_question qid q s = Ok (s1, o) ->
   o = [OFinish qid true] /\
